@@ -32,6 +32,7 @@ From Coq Require Import String Ascii.
 From Ygot Require Import Tree.Tree Tree.Codec Tree.TreeOps Tree.Unmarshal Tree.KeyCodec Tree.Leaves Tree.Node Path.PathRel.
 From Ygot Require Import Tree.MergeJson Tree.NodeFrameProofs Tree.NodeProofs Tree.NodeTotalProofs Tree.NodeExamples.
 From Ygot Require Import Tree.GnmiStatements.
+From Ygot Require Import Tree.SetReq Tree.SetReqSpec Tree.LeavesPartsProofs Tree.SetReqBridgeProofs.
 
 (* ---------- 1. DeleteNode succeeds and removes the subtree ---------- *)
 (* for every addressable path (key leaf or not): success, nothing is left at or below the address,
@@ -223,3 +224,17 @@ Example c12_shadow_path_noop :
   /\ sub_at c12_shadow_tree [StF (s_ "Iface"); StK [VStr (s_ "eth0")]; StF (s_ "Subif"); StK [VInt U32 7]; StF (s_ "Descr")]
      = Some (TLeaf (VStr (s_ "x"))).
 Proof. split; vm_compute; reflexivity. Qed.
+
+(* ---------- the leaf-level form (Leaves.leaves, the gNMI paths of TogNMINotifications) ---------- *)
+
+(* "every leaf outside p keeps its value": on the leaf map that findUpdatedLeaves reports, a
+   successful guarded DeleteNode is exactly spec_delete (the leaves at and below p removed, every
+   other leaf kept), and the invariant is preserved.  Guards: c13_inv2 and delete_guardb (target
+   no key leaf, complete canonical sorted keys, no ordered or unkeyed list on the path; p = []
+   included).  Proved in Tree/SetReqBridgeProofs.v (shared with C13). *)
+Theorem c12_leaves_after_delete : forall env fo ko sch,
+  leaves_after_delete_stmt env ko sch no_opts (schema_sem env fo ko sch)
+    (fun t => leaves env ko false sch t []) (c13_inv2 env fo ko sch)
+    (fun p => delete_guardb env fo ko sch p = true).
+Proof. exact leaves_after_delete_holds. Qed.
+Print Assumptions c12_leaves_after_delete.
